@@ -1,6 +1,7 @@
 """C02 - section and segment contents, string tables and address mapping are exact."""
 from symx.api import H
 from spec import enc
+from harness.elfkit import stream_length
 from spec import elf_layout as L
 
 PROPERTY = 'C02'
@@ -20,6 +21,7 @@ class _Elf:
     def __init__(self, ctx, stream, cls, little, machine='EM_X86_64'):
         S = ctx.lib('elf.structs')
         self.stream = stream
+        self.stream_len = stream_length(stream)
         self.elfclass = cls
         self.little_endian = little
         self.structs = S.ELFStructs(little_endian=little, elfclass=cls)
@@ -39,10 +41,14 @@ def h_data(ctx):
     n = cfg['n']
     SEC = ctx.lib('elf.sections')
     cells = ctx.bytes('f', n)
-    off = ctx.int_range('sh_offset', 0, n)
-    size = ctx.int_range('sh_size', 0, cfg['maxsize'])
-    ctx.assume(off + size <= n)
     nobits = cfg['nobits']
+    size = ctx.int_range('sh_size', 0, cfg['maxsize'])
+    if nobits:
+        # a no-bits section occupies no file space: its offset is only conceptual and may lie anywhere, beyond the end of the file too
+        off = ctx.uint('sh_offset', 32)
+    else:
+        off = ctx.int_range('sh_offset', 0, n)
+        ctx.assume(off + size <= n)
     elf = _Elf(ctx, ctx.stream(cells), cfg['elfclass'], True)
     align = ctx.uint('sh_addralign', 16)
     sec = SEC.Section(_shdr(sh_type='SHT_NOBITS' if nobits else 'SHT_PROGBITS', sh_offset=off, sh_size=size, sh_addralign=align), '.x', elf)
